@@ -17,6 +17,7 @@ import (
 	"github.com/tink-crypto/tink-go/v2/key"
 	"github.com/tink-crypto/tink-go/v2/keyset"
 	tinkpb "github.com/tink-crypto/tink-go/v2/proto/tink_go_proto"
+	"github.com/tink-crypto/tink-go/v2/verifharness/internal/evid"
 	"github.com/tink-crypto/tink-go/v2/verifharness/internal/gen"
 	"github.com/tink-crypto/tink-go/v2/verifharness/internal/keys"
 	"github.com/tink-crypto/tink-go/v2/verifharness/internal/legacykm"
@@ -247,23 +248,19 @@ func (e *entry) setID(t *rapid.T, id uint32) {
 func drawSpec(rt *rapid.T, a *adapter, maxKeys int, serializableOnly bool) *spec {
 	s := &spec{class: a.name}
 	n := rapid.IntRange(1, maxKeys).Draw(rt, "nkeys")
-	primary := rapid.IntRange(0, n-1).Draw(rt, "primary")
 	used := map[uint32]bool{}
 	for i := 0; i < n; i++ {
 		label := fmt.Sprintf("k%d", i)
-		e := &entry{idx: i, fate: fEnabled, primary: i == primary}
-		if i != primary {
-			e.fate = rapid.SampledFrom([]string{fEnabled, fEnabled, fEnabled, fDisabled, fDisabled, fDestroyed, fDeleted}).Draw(rt, label+"_fate")
-		}
+		e := &entry{idx: len(s.entries), fate: fEnabled}
 		if a.legacyURL != "" && rapid.IntRange(0, 2).Draw(rt, label+"_legacy") == 0 {
 			e.url = a.legacyURL
 			e.prefixType = rapid.SampledFrom(legacyPrefixTypes).Draw(rt, label+"_prefixtype")
 			e.material = normalize(a.legacyURL, gen.BytesN(rt, label+"_material", a.legacyLen))
-			// distinct from every other legacy key of the keyset, by construction
+			// key material is never duplicated inside a keyset: distinct by construction
 			for clash := true; clash; {
 				clash = false
 				for _, o := range s.entries {
-					if o.legacy() && twins(o, e) {
+					if twins(o, e) {
 						e.material[8]++
 						clash = true
 					}
@@ -280,6 +277,16 @@ func drawSpec(rt *rapid.T, a *adapter, maxKeys int, serializableOnly bool) *spec
 			if !e.info.HasID {
 				e.id = gen.KeyID(rt, label+"_ksid")
 			}
+			// key material is never duplicated inside a keyset (RSA pool keys, constant fillings and
+			// shrunk draws coincide): such a key is left out
+			dup := false
+			for _, o := range s.entries {
+				dup = dup || twins(o, e)
+			}
+			if dup {
+				evid.Add("left_out_keys_sharing_material", 1)
+				continue
+			}
 		}
 		id := e.id
 		for used[id] { // key IDs are unique inside a keyset; the shrinker makes them equal
@@ -288,6 +295,14 @@ func drawSpec(rt *rapid.T, a *adapter, maxKeys int, serializableOnly bool) *spec
 		used[id] = true
 		e.setID(rt, id)
 		s.entries = append(s.entries, e)
+	}
+	primary := rapid.IntRange(0, len(s.entries)-1).Draw(rt, "primary")
+	for i, e := range s.entries {
+		if i == primary {
+			e.primary = true
+			continue
+		}
+		e.fate = rapid.SampledFrom([]string{fEnabled, fEnabled, fEnabled, fDisabled, fDisabled, fDestroyed, fDeleted}).Draw(rt, fmt.Sprintf("e%d_fate", i))
 	}
 	return s
 }
@@ -398,7 +413,7 @@ func buildManager(rt *rapid.T, s *spec, annotations map[string]string) *keyset.H
 	}
 	var later []pending
 	for _, e := range s.entries {
-		label := fmt.Sprintf("k%d", e.idx)
+		label := fmt.Sprintf("h%d", e.idx)
 		init := managerStatus(e.fate)
 		switch e.fate {
 		case fEnabled:
